@@ -189,3 +189,92 @@ def from_sympy(e, zvars):
         raise ValueError("from_sympy: unsupported %s" % (x,))
 
     return g(sp.sympify(e))
+
+
+def clear_div(t):
+    """(num, den) z3 terms without division such that t == num/den wherever
+    every divisor occurring in t is non-zero.  Opaque sub-terms (ite, UF
+    applications, variables) are atoms."""
+    memo = {}
+    one = z3.RealVal(1)
+
+    def g(e):
+        k = e.get_id()
+        if k in memo:
+            return memo[k]
+        r = _g(e)
+        memo[k] = r
+        return r
+
+    def is_one(x):
+        n = _num(x)
+        return n is not None and n == 1
+
+    def mul(a, b):
+        if is_one(a):
+            return b
+        if is_one(b):
+            return a
+        return a * b
+
+    def _g(e):
+        if _num(e) is not None or z3.is_const(e):
+            return e, one
+        kind = e.decl().kind()
+        ch = e.children()
+        if kind == z3.Z3_OP_ADD or kind == z3.Z3_OP_SUB:
+            parts = [g(c) for c in ch]
+            den = one
+            seen = []
+            for _, d in parts:
+                if not is_one(d) and not any(z3.eq(d, s) for s in seen):
+                    seen.append(d)
+                    den = mul(den, d)
+            nums = []
+            for n, d in parts:
+                f = n
+                for s in seen:
+                    if not (not is_one(d) and z3.eq(d, s)):
+                        f = mul(f, s)
+                nums.append(f)
+            if kind == z3.Z3_OP_ADD:
+                return z3.Sum(nums), den
+            r = nums[0]
+            for x in nums[1:]:
+                r = r - x
+            return r, den
+        if kind == z3.Z3_OP_UMINUS:
+            n, d = g(ch[0])
+            return -n, d
+        if kind == z3.Z3_OP_MUL:
+            n, d = one, one
+            for c in ch:
+                cn, cd = g(c)
+                n, d = mul(n, cn), mul(d, cd)
+            return n, d
+        if kind == z3.Z3_OP_DIV:
+            an, ad = g(ch[0])
+            bn, bd = g(ch[1])
+            return mul(an, bd), mul(ad, bn)
+        if kind == z3.Z3_OP_POWER:
+            n = _num(ch[1])
+            if n is not None and n.denominator == 1 and 0 <= n <= 8:
+                an, ad = g(ch[0])
+                rn, rd = one, one
+                for _ in range(int(n)):
+                    rn, rd = mul(rn, an), mul(rd, ad)
+                return rn, rd
+        return e, one      # atom
+
+    return g(z3.simplify(t))
+
+
+def formally_equal(a, b):
+    """True if a == b is a formal identity of rational functions over the
+    atoms of a and b (decided by z3's own sum-of-monomials normaliser after
+    clearing denominators).  Sound whenever the divisors are non-zero."""
+    an, ad = clear_div(a)
+    bn, bd = clear_div(b)
+    r = z3.simplify(an * bd - bn * ad, som=True)
+    n = _num(r)
+    return n is not None and n == 0
